@@ -257,7 +257,7 @@ class BaseParser:
             for field in self.fields.values():
                 field.resolve_forward_refs()
             # resolve for types
-            self.addition_type, r = resolve_forward_type(self.addition_type)
+            self.resolve_forward_types()
         if self.is_local:
             # ForwardRef in local vars is not cachable
             # where typing is using a lru_cache
@@ -266,6 +266,11 @@ class BaseParser:
                 ref.__forward_evaluated__ = False
                 ref.__forward_value__ = None
         return resolved
+
+    def resolve_forward_types(self):
+        # the types held besides the fields: called while the evaluated refs are still set
+        # (those of a local class are reset at the end of resolve_forward_refs)
+        self.addition_type, r = resolve_forward_type(self.addition_type)
 
     @classmethod
     def validate_field_name(cls, name: str):
